@@ -139,6 +139,30 @@ def script_arith(pid, unit, ob, witness):
             "language_defined_result": want, "real_result": got, "confirms_violation": bool(bad)}
 
 
+# ------------------------------------------------------------------ C01: integer comparison at the operand signedness
+def script_cmp(pid, unit, ob, witness):
+    """harness c01_u1_binop_to_int_cmp: kani::any() order = op:u8, signed:bool, a:u64, b:u64"""
+    vecs = witness.get("vectors", []) if witness else []
+    if len(vecs) < 4:
+        return {"replayer": "script_cmp", "error": "no decodable witness", "confirms_violation": None}
+    k = vecs[0]["bytes"][0] % 13
+    is_signed = vecs[1]["bytes"][0] != 0
+    ty = "i64" if is_signed else "u64"
+    a, b = as_ty(le(vecs[2]["bytes"]), ty), as_ty(le(vecs[3]["bytes"]), ty)
+    op = BINOPS_ALL[k]
+    if op not in ("==", "!=", "<", "<=", ">", ">="):
+        return {"replayer": "script_cmp", "input": {"operator": op}, "error": "not a comparison operator", "confirms_violation": None}
+    path = write_script("cmp_%s.roto" % ty, "fn main(a: %s, b: %s) -> bool { a %s b }\n" % (ty, ty, op))
+    r = child(["jit", ty, "bool", path, str(a), str(b)])
+    want = {"==": a == b, "!=": a != b, "<": a < b, "<=": a <= b, ">": a > b, ">=": a >= b}[op]
+    got = result_value(r)
+    return {"replayer": "script_cmp", "input": {"type": ty, "a": a, "b": b, "operator": op}, "script": open(path).read(), "run": r,
+            "language_defined_result": str(want).lower(), "real_result": got, "confirms_violation": got is not None and got != str(want).lower()}
+
+
+BINOPS_ALL = ["&&", "||", "==", "!=", "<", "<=", ">", ">=", "+", "-", "*", "/", "%"]
+
+
 # ------------------------------------------------------------------ C20: evaluator vs JIT
 def eval_vs_jit(pid, unit, ob, witness):
     vecs = witness.get("vectors", []) if witness else []
@@ -214,7 +238,7 @@ def script_precedence(pid, unit, ob, witness):
     return {"replayer": "script_precedence", "input": {"operators": [o1, o2]}, "error": "no executable demonstration for this operator pair", "confirms_violation": None}
 
 
-REPLAYERS = {"script_divmod": script_divmod, "script_arith": script_arith, "eval_vs_jit": eval_vs_jit,
+REPLAYERS = {"script_cmp": script_cmp, "script_divmod": script_divmod, "script_arith": script_arith, "eval_vs_jit": eval_vs_jit,
              "list_ops": list_ops, "script_precedence": script_precedence}
 
 
